@@ -278,6 +278,11 @@ class PoolRun:
             if qn in ("Queue.get", "AsyncAdaptedQueue.get", "AsyncAdaptedQueue.get_nowait") and name == "Empty":
                 _mark(e, "_verif_seen")
                 self.log("qe", w)
+                # direct oracle: a getter may give up only when no connection is idle -- a
+                # connection returned before its deadline must serve it (the raise site holds
+                # the queue mutex, so this is the state the getter decided on)
+                if self.queue_list():
+                    self.fail("empty-raised-with-idle-connection", "Queue.get raised Empty (timeout) for %s while %d connection(s) are idle in the pool" % (w.name, len(self.queue_list())))
             elif qn in ("Queue.put", "AsyncAdaptedQueue.put", "AsyncAdaptedQueue.put_nowait") and name == "Full":
                 _mark(e, "_verif_seen")
                 self.log("qf", w)
@@ -349,6 +354,13 @@ class PoolRun:
         import sqlalchemy.util.queue as squeue
         import warnings
 
+        import logging
+
+        lg = logging.getLogger("sqlalchemy")
+        if not getattr(lg, "_verif_silenced", False):
+            lg.addHandler(logging.NullHandler())
+            lg.propagate = False
+            lg._verif_silenced = True
         cfg = self.cfg
         sched = self.sched = lib_sched.Sched(
             self.chooser,
